@@ -472,9 +472,16 @@ impl Emit<'_> {
             if rng.chance(2, 3) {
                 line += rng.below(4);
             }
+            if rng.chance(1, 40) {
+                line = *rng.pick(&[4294967295u64, 2147483648, 4294967294]);
+            }
             col = if rng.chance(1, 16) { *rng.pick(&[(1u64 << 32) - 1, 1 << 31]) } else { rng.below(30) };
             let off = format!("{{\"line\":{line},\"column\":{col}}}");
-            let body = match rng.below(8) {
+            let body = match rng.below(12) {
+                8 => "\"map\":null".to_string(),
+                9 => format!("\"url\":{},\"map\":{}", jstr("a.map"), self.regular(depth + 1, false)),
+                10 => format!("\"url\":{}", jstr(*self.rng.pick(&["", "é.map", "data:application/json;base64,e30=", "//x/y.map"]))),
+                11 => "\"url\":null".to_string(),
                 0 => format!("\"url\":{}", jstr("http://example.com/x.map")),
                 1 if depth < 2 => format!("\"map\":{}", self.index(depth + 1)),
                 2 => format!("\"map\":{}", self.regular(depth + 1, true)),
